@@ -9,20 +9,20 @@ def H(name, props, features="k_q", tier="quick", timeout=900, mem_gb=14, loops=N
 
 
 # ---- C16 -------------------------------------------------------------------------------------
-_c16_sym = "payload bytes[12] and length 0..=12 symbolic; attachment list structure concrete per harness (name suffix = channels,regions)"
-_c16_b = "unwind 14; bytes <= 12; <= 2 channel and <= 2 region attachments"
+_c16_sym = "payload bytes[17] and length 0..=17 symbolic; attachment list structure concrete per harness (name suffix = channels,regions)"
+_c16_b = "unwind 19; bytes <= 17; <= 2 channel and <= 2 region attachments"
 for n in ["c16_u8_00", "c16_u32pair_00", "c16_opt_u8_00", "c16_enum3_00", "c16_vec_u8_00", "c16_u8_10", "c16_u8_01",
           "c16_u8_21", "c16_sender_00", "c16_sender_10", "c16_sender_21", "c16_sender_pair_10", "c16_sender_pair_20",
           "c16_receiver_10", "c16_receiver_20", "c16_shm_00", "c16_shm_01", "c16_shm_02", "c16_shm_pair_01",
           "c16_shm_pair_02", "c16_mixed_11", "c16_drop_undecoded_21"]:
     # with no attachment of the right kind no payload can decode successfully
-    opt = ["REACH_OK"] if n in ("c16_sender_00", "c16_shm_pair_01") else []
+    opt = ["REACH_OK"] if n in ("c16_sender_00", "c16_shm_pair_01", "c16_sender_pair_10") else []
     H(n, ["C16"], sym=_c16_sym, bounds=_c16_b, opt=opt)
 
 PROPERTIES = {
     "C16": dict(
-        bounds="payload <= 12 bytes (bincode reads are positional: longer inputs add no new library code), <= 2 channels + <= 2 regions attached, 10 expected types",
-        outside="payloads of 13..4096 bytes, String targets, > 2 attachments of a kind",
+        bounds="payload <= 17 bytes (bincode reads are positional: longer inputs add no new library code), <= 2 channels + <= 2 regions attached, 10 expected types",
+        outside="payloads of 18..4096 bytes, String targets, > 2 attachments of a kind",
         assumptions=["undecoded messages are built through hook H3 (OpaqueIpcMessage::new) instead of a transport"],
     ),
 }
@@ -177,8 +177,8 @@ PROPERTIES = {
         outside="other attachment kinds than sockets (the kind does not enter the count), counts 67..300 (same path as 66)",
         assumptions=[_A_REC, _A_KQ, _A_INJ]),
     "C16": dict(
-        bounds="payload <= 12 symbolic bytes of symbolic length (bincode reads are positional: longer inputs add no new library code), <= 2 channel and <= 2 region attachments, 10 expected types incl. endpoints, regions and pairs of them; dropping an undecoded message",
-        outside="payloads of 13..4096 bytes, String targets, > 2 attachments of a kind",
+        bounds="payload <= 17 symbolic bytes of symbolic length (bincode reads are positional: longer inputs add no new library code), <= 2 channel and <= 2 region attachments, 10 expected types incl. endpoints, regions and pairs of them; dropping an undecoded message",
+        outside="payloads of 18..4096 bytes, String targets, > 2 attachments of a kind",
         assumptions=[_A_KQ, "undecoded messages are built through hook H3 (OpaqueIpcMessage::new) instead of a transport"]),
     "C18": dict(
         bounds="CBMC's memory model (pointer validity, object bounds, use after free, double free) over every unsafe block reached by: byte-exact round trips at the boundary lengths, regions of length 0..8 incl. zero-length at the platform level, 63..66 descriptors against the receiver's control buffer, truncated transfers (crash_*); M-queries on CMSG_* arithmetic for up to 2^32 descriptors",
@@ -207,3 +207,9 @@ HARNESSES["send_plan_noatt_enobufs"]["props"] = ["C13", "C02", "C01"]
 HARNESSES["send_plan_noatt_enobufs"]["tiers"] = {"C02": "thorough", "C01": "thorough"}
 HARNESSES["send_plan_att_enobufs"]["props"] = ["C13", "C04"]
 HARNESSES["send_plan_att_enobufs"]["tiers"] = {"C04": "thorough"}
+
+H("c14_de_nested", ["C14"], sym="inner value symbolic; a receive (OpaqueIpcMessage::to) nested inside a Deserialize impl between two regions of the enclosing message", bounds="unwind 14; depth 2")
+HARNESSES["shm_zero_received"]["props"].append("C05")
+for n in ["ser_fail_visit1", "ser_fail_visit3"]:
+    HARNESSES[n]["props"].append("C03")   # retained clones keep a channel connected for ever
+HARNESSES["send_plan_noatt_enobufs"]["tiers"] = {"C02": "thorough"}   # quick for C01 too: it runs in parallel with the no-fault one
